@@ -7,7 +7,12 @@ bases / trailing flags of the two PARSENUM_EX calls, the status ranges.
 
 The patterns look for calls, literals and comparisons inside the named function and avoid depending
 on loop shapes or on the names of locals, so that a behaviour-preserving rewrite (for -> while,
-renamed local, reordered independent statements) regenerates the same file."""
+renamed local, reordered independent statements) regenerates the same file.  Before the patterns are
+applied the text is normalised (_normalise: `!memcmp(..)` -> `memcmp(..) == 0`, integer value casts removed,
+`1024 * 1024` / `(1 << 20)` folded, redundant parentheses around a literal or around `x + N` dropped); the
+wait cap is read from either the if/else or the conditional-expression form, the header-terminator scan may
+keep its position in a local, the line count may live in a helper function, and the local holding the EOL
+position of the chunk-size line is found by its assignment from findeol()."""
 from common import *
 
 ID = r"[A-Za-z_][A-Za-z_0-9>\.\-\[\]\*]*"      # an lvalue-ish token (H->hepos, *bufpos, buflen ...)
@@ -39,6 +44,42 @@ def _func(src, name):
     return m.group(0)
 
 
+_CAST = r"(?<!sizeof)\(\s*(?:const\s+)?(?:size_t|ssize_t|int|unsigned(?:\s+int)?|long|uintmax_t)\s*\)\s*(?=[\w(])"
+_ARGS = r"[^()]*(?:\([^()]*\)[^()]*)*"
+
+
+def _normalise(src):
+    """Cosmetic variation that does not change what the code computes is removed before the patterns are
+    applied: `!memcmp(..)` / `!strcmp(..)` -> `.. == 0`, value casts to an integer type, products / shifts of
+    two literals standing alone as an operand (`1024 * 1024`, `1 << 20`) -> their value, parentheses around a
+    lone literal or around `x + N` / `x - N` directly compared or assigned."""
+    src = re.sub(r"!\s*(memcmp|strcmp)\((%s)\)" % _ARGS, r"\1(\2) == 0", src)
+    prev = None
+    while prev != src:
+        prev = src
+        src = re.sub(_CAST, "", src)
+        src = re.sub(r"(?<=[(=<>,?:])(\s*)(\d+)\s*(\*|<<)\s*(\d+)(?=\s*[);,:?])",
+                     lambda m: m.group(1) + str(int(m.group(2)) * int(m.group(4)) if m.group(3) == "*"
+                                                else int(m.group(2)) << int(m.group(4))), src)
+        src = re.sub(r"(?<=[(=<>,?:+\-*!&|])(\s*)\(\s*(\d+)\s*\)", r"\1\2", src)
+        # (x + N) / (x - N) as a whole operand of a comparison or an assignment
+        src = re.sub(r"(?<=[=<>(,;&|])(\s*)\(\s*(\*?[A-Za-z_][\w>\.\-]*\s*[+-]\s*\d+)\s*\)(?=\s*(?:[<>=!]=?|[;),]))", r"\1\2", src)
+    return src
+
+
+def _block(text, start):
+    """text[start] == '{': the text between it and the matching '}'."""
+    depth = 0
+    for i in range(start, len(text)):
+        if text[i] == "{":
+            depth += 1
+        elif text[i] == "}":
+            depth -= 1
+            if depth == 0:
+                return text[start + 1:i]
+    raise NotFound("unbalanced braces")
+
+
 def _int_expr(txt):
     txt = txt.strip()
     if not re.fullmatch(r"[0-9\s\*\+\(\)]+", txt):
@@ -54,28 +95,36 @@ def _same(vals, what):
 
 
 def extract(repo):
-    src = strip_comments(read(repo, "http/http.c"))
-    nb = strip_comments(read(repo, "netbuf/netbuf_read.c"))
+    src = _normalise(strip_comments(read(repo, "http/http.c")))
+    nb = _normalise(strip_comments(read(repo, "netbuf/netbuf_read.c")))
     out = HEADER
     out += coq_def_N("maxhdr", define_int(src, "MAXHDR"))
     out += coq_def_N("maxchlen", define_int(src, "MAXCHLEN"))
 
     # ---- callback_readdata
     rdd = _func(src, "callback_readdata")
-    m = _one(r"if\s*\(\s*H->readlen\s*>\s*([0-9\s\*]+)\)\s*\{?\s*waitlen\s*=\s*([0-9\s\*]+);", rdd, "wait cap")
-    out += coq_def_N("waitcap", _same([_int_expr(m.group(1)), _int_expr(m.group(2))], "wait cap"))
+    # waitlen = MIN(H->readlen, cap), written as if/else or as a conditional expression: the cap is every literal
+    # H->readlen is compared with by `>` and every literal that can become waitlen
+    caps = _all(r"H->readlen\s*>\s*(\d+)\b", rdd, "wait cap (H->readlen > N)")
+    vals = re.findall(r"waitlen\s*=\s*(\d+)\s*;", rdd) + re.findall(r"\?\s*(\d+)\s*:\s*H->readlen", rdd)
+    vals = [v for v in vals if int(v) != 0]          # `size_t waitlen = 0;` initialisers
+    if not vals:
+        raise NotFound("wait cap (waitlen = N)")
+    out += coq_def_N("waitcap", int(_same(caps + vals, "wait cap")))
     # the chunk's trailing EOL is excluded from the body: the 2 of `H->readlen <= 2` / `H->readlen - 2`
-    m = _one(r"if\s*\(\s*H->chunked\s*\)\s*\{(.*?)\}", rdd, "chunk EOL exclusion in callback_readdata")
-    blk = m.group(1)
+    m = _one(r"if\s*\(\s*H->chunked\s*(?:!=\s*0\s*)?\)\s*\{", rdd, "chunk EOL exclusion in callback_readdata")
+    blk = _block(rdd, m.end() - 1)
     a = _one(r"H->readlen\s*<=\s*(\d+)", blk, "chunk EOL exclusion: readlen <= N").group(1)
     bs = _all(r"H->readlen\s*-\s*(\d+)", blk, "chunk EOL exclusion: readlen - N")
     out += coq_def_N("chunk_eol_len", int(_same([a] + bs, "chunk EOL exclusion")))
 
     # ---- callback_read_header: terminator literal, its length wherever hepos + N is written
     rh = _func(src, "callback_read_header")
-    m = _one(r"memcmp\(\s*&?[^,]*hepos[^,]*,\s*%s\s*,\s*(\d+)\s*\)\s*==\s*0" % STR, rh, "header terminator memcmp")
+    m = _one(r"memcmp\(\s*&?[^,]*,\s*%s\s*,\s*(\d+)\s*\)\s*[=!]=\s*0" % STR, rh, "header terminator memcmp")
     term = _lit(m.group(1))
-    ns = [int(m.group(2)), len(term)] + [int(x) for x in _all(r"hepos\s*\+\s*(\d+)", rh, "hepos + N")]
+    # the scan position may live in a local: every `x + N <= buflen` bound as well as every `hepos + N`
+    ns = [int(m.group(2)), len(term)] + [int(x) for x in _all(r"hepos\s*\+\s*(\d+)", rh, "hepos + N")] + \
+         [int(x) for x in re.findall(r"\+\s*(\d+)\s*<=\s*buflen", rh)]
     _same(ns, "header terminator length")
     out += coq_def_list("hdr_terminator", term)
     m = _one(r"netbuf_read_wait\(\s*H->R\s*,\s*\w+\s*\+\s*(\d+)\s*,\s*callback_read_header", rh, "header wait")
@@ -94,9 +143,11 @@ def extract(repo):
 
     # ---- gotheaders
     gh = _func(src, "gotheaders")
-    m = _one(r"\w+\s*\+=\s*linelen\s*\+\s*(\d+)", gh, "line count advance")
+    m = re.search(r"\w+\s*\+=\s*linelen\s*\+\s*(\d+)", gh) or \
+        _one(r"\w+\s*\+=\s*findeol\(%s\)\s*\+\s*(\d+)\s*;" % _ARGS, src, "line count advance")
     out += coq_def_N("count_skip", int(m.group(1)))
-    m = _one(r"H->res\.nheaders\s*-=\s*(\d+)\s*;", gh, "nheaders adjustment")
+    m = re.search(r"H->res\.nheaders\s*-=\s*(\d+)\s*;", gh) or \
+        _one(r"H->res\.nheaders\s*=\s*\w+\(%s\)\s*-\s*(\d+)\s*;" % _ARGS, gh, "nheaders adjustment")
     out += coq_def_N("nonheader_lines", int(m.group(1)))
     m = _one(r"assert\(\s*\w+\s*\+\s*(\d+)\s*==\s*H->res_headlen\s*\)", gh, "end-of-block assert")
     out += coq_def_N("final_blank_len", int(m.group(1)))
@@ -113,7 +164,7 @@ def extract(repo):
     out += coq_def_N("interim_hi", int(m.group(2)))
     bodiless = [int(x) for x in _all(r"H->res\.status\s*==\s*(\d+)", gh, "bodiless statuses")]
     out += "Definition bodiless_statuses : list N := [%s]%%N.\n" % "; ".join(map(str, bodiless))
-    if not re.search(r"H->req_ishead\s*!=\s*0", gh):
+    if not re.search(r"H->req_ishead\s*(?:!=\s*0\s*)?(?:\|\||\))", gh):
         raise NotFound("HEAD test in gotheaders")
     # OWS
     trail = _all(r"\w+\[\w+\s*-\s*1\]\s*==\s*'(.+?)'", gh, "trailing OWS test")
@@ -136,15 +187,16 @@ def extract(repo):
 
     # ---- callback_chunkedheader
     ch = _func(src, "callback_chunkedheader")
-    m = _one(r"PARSENUM_EX\(\s*&clen\s*,\s*\(const char \*\)\s*(\w+)\s*,\s*0\s*,\s*SIZE_MAX\s*,\s*(\d+)\s*,\s*(\d+)\s*\)", ch, "chunk size PARSENUM_EX")
+    m = _one(r"PARSENUM_EX\(\s*&clen\s*,\s*(?:\(\s*const\s+char\s*\*\s*\)\s*)?(\w+)\s*,\s*0\s*,\s*SIZE_MAX\s*,\s*(\d+)\s*,\s*(\d+)\s*\)", ch, "chunk size PARSENUM_EX")
     bufname = m.group(1)
     out += coq_def_N("chunk_base", int(m.group(2)))
     out += coq_def_N("chunk_trailing", int(m.group(3)))
     # is the line NUL-terminated at the EOL position before it is parsed?
     pre = ch[:m.start()]
-    terminated = 1 if re.search(r"%s\[eolpos\]\s*=\s*(?:'\\0'|0)\s*;" % re.escape(bufname), pre) else 0
+    eolvar = _one(r"(\w+)\s*=\s*findeol\(", ch, "EOL position local").group(1)
+    terminated = 1 if re.search(r"%s\[%s\]\s*=\s*(?:'\\0'|0)\s*;" % (re.escape(bufname), eolvar), pre) else 0
     out += coq_def_N("chunk_line_terminated", terminated)
-    m = _one(r"netbuf_read_consume\(\s*H->R\s*,\s*eolpos\s*\+\s*(\d+)\s*\)", ch, "chunk line consume")
+    m = _one(r"netbuf_read_consume\(\s*H->R\s*,\s*%s\s*\+\s*(\d+)\s*\)" % eolvar, ch, "chunk line consume")
     out += coq_def_N("chunk_line_skip", int(m.group(1)))
     g = _one(r"clen\s*>\s*SIZE_MAX\s*-\s*(\d+)", ch, "clen + 2 overflow guard").group(1)
     a = _one(r"H->readlen\s*=\s*clen\s*\+\s*(\d+)\s*;", ch, "readlen = clen + 2").group(1)
@@ -164,7 +216,7 @@ def extract(repo):
     m = _one(r'H->req_headlen\s*=\s*strlen\(request->method\)\s*\+\s*strlen\(%s\)\s*\+\s*strlen\(request->path\)\s*\+\s*strlen\(%s\)\s*;' % (STR, STR), rq, "request-line length")
     out += coq_def_list("reqlen_sp", _lit(m.group(1)))
     out += coq_def_list("reqlen_version", _lit(m.group(2)))
-    m = _one(r"strlen\(request->headers\[i\]\.value\)\s*\+\s*(\d+)\s*;", rq, "header line length")
+    m = _one(r"strlen\(request->headers\[i\]\.value\)\s*\+\s*(\d+)\s*\)?\s*;", rq, "header line length")
     out += coq_def_N("reqlen_per_header", int(m.group(1)))
     m = _one(r"H->req_headlen\s*\+=\s*(\d+)\s*;", rq, "blank line length")
     out += coq_def_N("reqlen_blank", int(m.group(1)))
